@@ -144,7 +144,15 @@ class Bench:
         except Exception as e:          # noqa
             return (type(e).__name__, e)
 
-    def judge(self, status, out, key, crash_prop='C03'):
+    def judge(self, status, out, key, crash_prop='C03', known=None):
+        kind = out[0]
+        nv = len(self.violations)
+        self._judge(status, out, key, crash_prop)
+        if known is not None:
+            for v in self.violations[nv:]:
+                v.known = known
+
+    def _judge(self, status, out, key, crash_prop='C03'):
         kind = out[0]
         self.stats[f"decision:{status}:{'ok' if kind == 'ok' else 'ValueError' if kind == 'ValueError' else 'other'}"] += 1
         if status == 'must_accept':
@@ -346,12 +354,16 @@ class Bench:
         if s.kind == 'container':
             return 'c>N'
         ls, ld = len(s.cells), len(d.cells)
-        if ls == 1 and (s.shape == (1, 1)):
+        # documented pairing: one -> many, many -> one, element-wise for equal shapes (a list of n wells pairs with a
+        # list of n wells); a list against a rectangle of another shape is not predicted
+        if ls == 1:
             return '1>N'
-        if ld == 1 and (d.shape == (1, 1)):
+        if ld == 1:
             return 'N>1'
         if s.shape is not None and s.shape == d.shape:
             return 'N>N'
+        if s.shape is None and d.shape is None:
+            return 'N>N' if ls == ld else 'bad'
         if s.shape is None or d.shape is None:
             return 'list'
         return 'bad'
@@ -506,10 +518,9 @@ class Bench:
         self.sig.add(('transfer', form, s.kind + ('*' if s.whole else ''), d.kind + ('*' if d.whole else ''),
                       'same' if same else 'diff', 'overlap' if overlap else '-', unit_class(unit), status,
                       out[0] if out[0] in ('ok', 'ValueError') else 'other', 'stale' if stale else 'latest'))
-        if known and known.get('skip_judge'):
-            pass
-        elif status != 'unpredicted':
-            self.judge(status, out, key, crash_prop='C07' if form not in ('c>c',) else 'C03')
+        if status != 'unpredicted':
+            self.judge(status, out, key, crash_prop='C07' if form not in ('c>c',) else 'C03',
+                       known=known.get('id') if known and known.get('skip_judge') else None)
         rec = {'form': form, 'status': status, 'out': out[0]}
         if out[0] != 'ok':
             if status == 'must_refuse' or status == 'must_reject':
